@@ -48,8 +48,8 @@ def setup(tier):
 
 def budget(tier):
     if tier == "quick":
-        return {"cases": 1600, "workers": 8, "watchdog_s": 1500}
-    return {"cases": 80000, "workers": 16, "watchdog_s": 7200}
+        return {"cases": 8000, "workers": 8, "watchdog_s": 1800}
+    return {"cases": 320000, "workers": 16, "watchdog_s": 3600, "budget_s": 600}
 
 
 def gen_final_op(rng, g, cols, eng):
@@ -280,6 +280,9 @@ def run_case(case):
                 if isinstance(exc, R.EngineError) and "Joins are not supported by the iteration engine" in str(exc):
                     # accepted-then-unsupported joins are C08's (known) finding, not a backtracking matter
                     c["join_landed_in_iteration_engine"] = c.get("join_landed_in_iteration_engine", 0) + 1
+                    continue
+                if multi.prune_order_loss(r2, exc):
+                    c["process_time_order_refusal_known_finding"] = c.get("process_time_order_refusal_known_finding", 0) + 1
                     continue
                 out["violations"].append({"kind": "result_not_evaluable", "mech": mech, "detail": f"{req}: {exc_str(exc)} tree {short(r2, 400)}"})
                 continue
